@@ -370,8 +370,112 @@ func c16Invocation(prog *compiled, fn string, args []value.Value) (runtime.Funct
 	return runtime.FunctionInvocation{}, fmt.Errorf("function %s not in service program", fn)
 }
 
+// runC16Gen: histories over generated pure functions. Oracle (metamorphic): the result of a call equals
+// the result of the same call on a fresh VM, whatever was called before or is in flight next to it.
+func runC16Gen(t *testing.T, spec RunSpec) *Verdict {
+	const P = "C16"
+	v := &Verdict{}
+	gs := uint64(spec.P("gen", 1))
+	src := genFunctions(gs, 4)
+	prog, err := MustCompile(Single(src + "fn main() {}\n"))
+	if err != nil {
+		v.Probes = map[string]int{"generated-program-rejected": 1}
+		return v
+	}
+	v.Extra = map[string]any{"source": src}
+	env := newVMEnv(prog, c16Limits)
+	var history []string
+	var viol func()
+	failNow := func(class, clause, culprit, msg string) {
+		if viol == nil {
+			h := strings.Join(history, "; ")
+			viol = func() { v.fail(P, class, clause, culprit, msg+" | history: "+h) }
+		}
+	}
+	res := simrt.Run(t, simConfig(spec.Sim), simSource(spec), func(s *simrt.Sim) {
+		env.boot()
+		n := 1 + s.Choose(spec.P("len", 10), "histlen")
+		mk := func() (string, runtime.FunctionInvocation, int64, string) {
+			k, arg := s.Choose(4, "op"), s.Choose(13, "arg")
+			want, gerr := genReference(t, gs, src, k, arg)
+			inv, _ := c16Invocation(prog, fmt.Sprintf("e%d", k), []value.Value{vInt(int64(arg))})
+			return fmt.Sprintf("e%d(%d)", k, arg), inv, want, gerr
+		}
+		for c := 0; c < n && viol == nil; c++ {
+			desc, inv, want, gerr := mk()
+			if gerr != "" {
+				s.Probe("generated-call-fails-on-fresh-vm")
+				continue
+			}
+			s.SetDeadline("call-returns", 600*time.Second)
+			var results []runtime.FunctionInvocationResult
+			wants := []int64{want}
+			descs := []string{desc}
+			switch mode := s.Choose(4, "mode"); mode {
+			case 0:
+				results = append(results, env.vm.SpawnSync(inv, nil, nil))
+			case 3:
+				desc2, inv2, want2, gerr2 := mk()
+				if gerr2 == "" {
+					s.Probe("overlapping-invocations")
+					c1 := env.vm.SpawnAsync(inv, nil, nil, nil)
+					c2 := env.vm.SpawnAsync(inv2, nil, nil, nil)
+					num, i := env.vm.Wait()
+					results = append(results, env.vm.HandleTermination(c1, inv, i, num), env.vm.HandleTermination(c2, inv2, i, num))
+					wants = append(wants, want2)
+					descs = append(descs, desc2)
+					break
+				}
+				fallthrough
+			default:
+				core := env.vm.SpawnAsync(inv, nil, nil, nil)
+				num, i := env.vm.Wait()
+				results = append(results, env.vm.HandleTermination(core, inv, i, num))
+			}
+			s.ClearDeadline("call-returns")
+			history = append(history, strings.Join(descs, " || "))
+			for ri, r := range results {
+				if r.Exception != nil {
+					failNow("wrong-result", "call-result", "generated:failed", fmt.Sprintf("call #%d %s failed (%s) although the same call completes on a fresh VM", c, descs[ri], firstLine(r.Exception.Interrupt.Message())))
+					return
+				}
+				if msg := wantInt(wants[ri])(r.ReturnValue); msg != "" {
+					failNow("wrong-result", "call-result", "generated:value", fmt.Sprintf("call #%d %s %s (the value the same call returns on a fresh VM)", c, descs[ri], msg))
+					return
+				}
+			}
+			s.Settle(time.Second)
+			if others := s.Others(); len(others) > 0 {
+				failNow("leftover-task", "no-residue-cores", "generated", fmt.Sprintf("after completed call #%d other tasks are still alive: %v", c, others))
+				return
+			}
+			if nc, ok := vmCoreCount(env.vm); ok && nc != 0 {
+				failNow("wrong-result", "no-residue-cores", "core-list", fmt.Sprintf("after completed call #%d the VM still lists %d core(s)", c, nc))
+				return
+			}
+			if held := s.LocksHeld(); len(held) > 0 {
+				failNow("wrong-result", "no-residue-locks", strings.Join(s.LockSites(), ","), fmt.Sprintf("after completed call #%d a lock is still held: %v", c, held))
+				return
+			}
+		}
+	})
+	v.absorb(P, res)
+	v.Output = history
+	if v.Class != "" {
+		v.Msg += " | history: " + strings.Join(history, "; ")
+		return v
+	}
+	if viol != nil {
+		viol()
+	}
+	return v
+}
+
 func runC16(t *testing.T, spec RunSpec) *Verdict {
 	const P = "C16"
+	if spec.P("gen", 0) > 0 {
+		return runC16Gen(t, spec)
+	}
 	v := &Verdict{}
 	prog, err := MustCompile(Single(c16Service))
 	if err != nil {
@@ -647,6 +751,18 @@ func planC16(t *testing.T, tier string, seed uint64) ([]RunSpec, error) {
 		s.Sim = swarm(seed, i)
 		s.Sim.POther = 1 // operations, arguments and modes are drawn uniformly
 		s.Seed = runSeed(seed, i)
+		plan = append(plan, s)
+	}
+	// histories over generated pure functions (result must equal the fresh-VM result)
+	ng := 300
+	if !quick(tier) {
+		ng = 100000
+	}
+	for i := 0; i < ng; i++ {
+		s := RunSpec{Property: "C16", Workload: "c16/history-generated", Params: map[string]int{"len": 8, "gen": 1 + int(simrt.Mix(seed, uint64(i/5), 0x16)%1000000)}}
+		s.Sim = swarm(seed, 2*n+i)
+		s.Sim.POther = 1
+		s.Seed = runSeed(seed, 2*n+i)
 		plan = append(plan, s)
 	}
 	// directed histories: the spawning entry points over and over (cores finishing while others are spawned)
